@@ -101,6 +101,23 @@ CHECKS = {
         "lengths swept across the 4096-character chunk boundaries for compression levels 0,1,4,9.",
         note="Trusts vf/proto.py (protocol documents), PIL decoders and convert/resize(BOX)/alpha_composite for non-identity cases; JPEG judged against PIL's own codec at the effective quality.",
     ),
+    "C17": dict(
+        level="exploration",
+        technique="runtime monitor: every sub-rectangle of each generated canvas executed row by row on VTerm and compared with the untrimmed canvas",
+        text="For sampled image widgets (3 styles, box and flow, 9 alignments, upscale, transparency, 4 identities) ALL (trim_left, trim_top, "
+        "cols, rows) are requested: row count, exact column advance, reset attributes at row end, visible half-cell colours equal to the "
+        "full canvas (text), exact line selection / blank horizontal trims (graphics); flow widgets' announced rows equal rendered rows.",
+        note="Trusts VTerm's one-row interpretation; exhaustive per canvas, canvases sampled.",
+    ),
+    "C18": dict(
+        level="exploration",
+        technique="runtime monitor: incremental screen output on VTerm vs. the same canvas executed on a fresh VTerm (placement layer), sync-bracket / clear / z-index observers",
+        text="Random urwid layout histories with kitty, iterm2 and block widgets under kitty, konsole and other identities: after every redraw "
+        "the placements on the incrementally updated reference terminal must equal a full repaint of the same canvas (no ghost, no missing "
+        "image), all redraw output lies inside one synchronized-update bracket, delete-all on start/stop/clear, live kitty widgets hold "
+        "distinct in-range z-indexes (boundary reached by presetting the allocator).",
+        note="Trusts VTerm's kitty/konsole placement semantics (stack vs replace) and urwid 2.6.16 as installed; text-layer anomalies are counted only.",
+    ),
 }
 
 NOT_APPLICABLE = {
